@@ -663,9 +663,18 @@ impl<T> ParseArgument<T> {
             _ => {
                 #[cfg(feature = "autocomplete")]
                 args.push_argument(&self.named, self.metavar);
-                if let Some(val) = self.named.env.iter().find_map(std::env::var_os) {
-                    args.current = None;
-                    return Ok(val);
+                // environment variable is a fallback for an argument that is absent from the
+                // command line, not for one whose occurrences were all consumed already: after
+                // `-b 1` a repetition such as `many` asks for `-b` once more and a leftover
+                // variable must not take part in (and possibly fail) the parse
+                let on_the_line = args.items[args.scope()]
+                    .iter()
+                    .any(|arg| self.named.matches_arg(arg, self.adjacent));
+                if !on_the_line {
+                    if let Some(val) = self.named.env.iter().find_map(std::env::var_os) {
+                        args.current = None;
+                        return Ok(val);
+                    }
                 }
 
                 if let Some(item) = self.item() {
